@@ -443,8 +443,9 @@ mod k {
         std::mem::forget(r);
     }
 
-    /// VERIF: {"p":"C19","tier":"quick","fns":["config::parse_duration"],"bounds":"Yaml::Integer(i) for all 2^64 i (negative, zero, huge)","oracle":"never a panic; a non-negative integer is that many seconds; a negative integer is refused with InvalidConfig (not wrapped to 2^64+i seconds)","covers":3}
+    /// VERIF: {"p":"C19","tier":"quick","fns":["config::parse_duration"],"bounds":"Yaml::Integer(i) for all 2^64 i (negative, zero, huge)","oracle":"never a panic; a non-negative integer is that many seconds; a negative integer is refused with InvalidConfig (not wrapped to 2^64+i seconds)","stubs":["alloc::fmt::format -> empty string (error message text is not the subject)"],"covers":3}
     #[kani::proof]
+    #[kani::stub(alloc::fmt::format, empty_format)]
     fn c19_parse_duration_integer_all_i64() {
         let i: i64 = kani::any();
         let y = Yaml::Integer(i);
@@ -509,7 +510,7 @@ mod k {
         ok
     }
 
-    /// VERIF: {"p":"C19","tier":"quick","fns":["config::str_duration"],"bounds":"every ASCII string of length 0,1,2,3,4 (all 128 values per octet; one instance per length, run one after the other)","oracle":"Ok(duration) or Err(InvalidConfig): never a panic (unwrap, arithmetic overflow)","stubs":["alloc::fmt::format -> empty string (message text only)"],"covers":1,"unwind":7}
+    /// VERIF: {"p":"C19","tier":"thorough","fns":["config::str_duration"],"bounds":"every ASCII string of length 0,1,2,3,4 (all 128 values per octet; one instance per length, run one after the other)","oracle":"Ok(duration) or Err(InvalidConfig): never a panic (unwrap, arithmetic overflow)","stubs":["alloc::fmt::format -> empty string (message text only)"],"covers":1,"unwind":7}
     #[kani::proof]
     #[kani::unwind(7)]
     #[kani::stub(alloc::fmt::format, empty_format)]
@@ -550,7 +551,7 @@ mod k {
         want
     }
 
-    /// VERIF: {"p":"C19","tier":"quick","fns":["config::str_duration"],"bounds":"every ASCII string of length 0,1,2,3 in which each unit letter (s m h d w) that precedes the first foreign character has a digit between it and the previous unit letter","oracle":"value == sum of number x unit (+ trailing bare number as seconds), blanks and '_' ignored; a foreign character => Err(InvalidConfig); never a panic","stubs":["alloc::fmt::format -> empty string (message text only)"],"covers":3,"unwind":7}
+    /// VERIF: {"p":"C19","tier":"thorough","fns":["config::str_duration"],"bounds":"every ASCII string of length 0,1,2,3 in which each unit letter (s m h d w) that precedes the first foreign character has a digit between it and the previous unit letter","oracle":"value == sum of number x unit (+ trailing bare number as seconds), blanks and '_' ignored; a foreign character => Err(InvalidConfig); never a panic","stubs":["alloc::fmt::format -> empty string (message text only)"],"covers":3,"unwind":7}
     #[kani::proof]
     #[kani::unwind(7)]
     #[kani::stub(alloc::fmt::format, empty_format)]
